@@ -715,7 +715,10 @@ func checkAndPropagateArgs(
 		defineArgIdx++
 	}
 
-	if methodT.IsAnyType() {
+	// a method without a declared signature that returns untyped takes
+	// anything; one that declares its parameters is checked like any other,
+	// whatever it returns
+	if methodT.IsAnyType() && len(methodT.GetDefineArgs()) == 0 {
 		return nil
 	}
 
